@@ -16,6 +16,16 @@ import reportlib
 
 
 def run_case(c, d):
+    if c.get('earlier_files'):
+        # the same paths held other text when an earlier report of this process read them (the files were edited since)
+        for name, text in c['earlier_files'].items():
+            with open(os.path.join(d, name), 'w', encoding='utf-8', newline='') as fh:
+                fh.write(text)
+        early = {(os.path.join(d, fn), first, name): [(first, 1, 1)] for fn, first, name, entries in c['stats'] if fn in c['earlier_files']}
+        try:
+            lp.show_text(early, c['unit'], stream=io.StringIO())
+        except Exception:   # noqa
+            pass
     for name, text in c['files'].items():
         with open(os.path.join(d, name), 'w', encoding='utf-8', newline='') as fh:
             fh.write(text)
